@@ -826,6 +826,12 @@ func classifyAccumulator(l *mapLoop, phi *ssa.Phi, ups []ssa.Value, chain map[ss
 				kinds["collect"] = true
 				return walk(x.Call.Args[0], depth+1)
 			}
+			// m = ensure(m, ...): a module helper that returns its argument or a fresh map
+			if i := ensuresMapArg(x); i >= 0 {
+				chain[x] = true
+				kinds["lazy-map"] = true
+				return walk(x.Call.Args[i], depth+1)
+			}
 		case *ssa.MakeMap:
 			kinds["lazy-map"] = true
 			return true
@@ -1010,6 +1016,16 @@ func readOnlyProtoreflect(cc *ssa.CallCommon) bool {
 // lazyMapRoot: m is an in-loop merge of a lazily created map accumulator and
 // the fresh map it is initialised with; returns the accumulator.
 func lazyMapRoot(m ssa.Value, mapAccum map[ssa.Value]bool, l *mapLoop, depth int) ssa.Value {
+	if call, isCall := m.(*ssa.Call); isCall && depth <= 4 && l.definedIn(call) {
+		if i := ensuresMapArg(call); i >= 0 {
+			a := strip(call.Call.Args[i])
+			if mapAccum[a] {
+				return a
+			}
+			return lazyMapRoot(a, mapAccum, l, depth+1)
+		}
+		return nil
+	}
 	phi, ok := m.(*ssa.Phi)
 	if !ok || depth > 4 || !l.definedIn(phi) {
 		return nil
@@ -1223,4 +1239,70 @@ func prefixFact(f Fact) (arg ssa.Value, c string, fn string, ok bool) {
 		}
 	}
 	return nil, "", "", false
+}
+
+// ensuresMapArg: call is f(.., m, ..) of a static callee with a body every return of which
+// yields either its map parameter m itself or a map made in f ("return m, allocating it if
+// nil"); returns the index of that argument, or -1.
+func ensuresMapArg(call *ssa.Call) int {
+	sc := call.Call.StaticCallee()
+	if sc == nil || len(sc.Blocks) == 0 || sc.Signature.Results().Len() != 1 {
+		return -1
+	}
+	if _, isMap := sc.Signature.Results().At(0).Type().Underlying().(*types.Map); !isMap {
+		return -1
+	}
+	// no effects besides building the map
+	pure := true
+	ForEachInstr(sc, func(in ssa.Instruction) {
+		switch x := in.(type) {
+		case *ssa.Store, *ssa.MapUpdate, *ssa.Send, *ssa.Go, *ssa.Defer, *ssa.Panic:
+			pure = false
+		case *ssa.Call:
+			if !IsCallTo(x, "builtin len", "builtin cap") {
+				pure = false
+			}
+		}
+	})
+	if !pure {
+		return -1
+	}
+	idx := -1
+	ok := true
+	var leaf func(v ssa.Value, depth int)
+	leaf = func(v ssa.Value, depth int) {
+		if depth > 4 {
+			ok = false
+			return
+		}
+		switch x := v.(type) {
+		case *ssa.Parameter:
+			for i, pr := range sc.Params {
+				if pr == x {
+					if idx >= 0 && idx != i {
+						ok = false
+					}
+					idx = i
+					return
+				}
+			}
+			ok = false
+		case *ssa.MakeMap:
+		case *ssa.Phi:
+			for _, e := range x.Edges {
+				leaf(e, depth+1)
+			}
+		default:
+			ok = false
+		}
+	}
+	for _, b := range sc.Blocks {
+		if ret, isRet := b.Instrs[len(b.Instrs)-1].(*ssa.Return); isRet {
+			leaf(ret.Results[0], 0)
+		}
+	}
+	if !ok || idx < 0 || idx >= len(call.Call.Args) {
+		return -1
+	}
+	return idx
 }
